@@ -358,6 +358,12 @@ module Z =
                  | Zneg q -> Pos.eqb p q
                  | _ -> false)
 
+  (** val abs : z -> z **)
+
+  let abs = function
+  | Zneg p -> Zpos p
+  | x -> x
+
   (** val to_nat : z -> nat **)
 
   let to_nat = function
@@ -433,6 +439,12 @@ module Z =
   | _ -> Z0
  end
 
+(** val tl : 'a1 list -> 'a1 list **)
+
+let tl = function
+| [] -> []
+| _ :: m -> m
+
 (** val nth : nat -> 'a1 list -> 'a1 -> 'a1 **)
 
 let rec nth n0 l default =
@@ -443,6 +455,12 @@ let rec nth n0 l default =
   | S m -> (match l with
             | [] -> default
             | _ :: t -> nth m t default)
+
+(** val rev : 'a1 list -> 'a1 list **)
+
+let rec rev = function
+| [] -> []
+| x :: l' -> app (rev l') (x :: [])
 
 (** val concat : 'a1 list list -> 'a1 list **)
 
@@ -463,11 +481,33 @@ let rec fold_left f l a0 =
   | [] -> a0
   | b :: t -> fold_left f t (f a0 b)
 
+(** val fold_right : ('a2 -> 'a1 -> 'a1) -> 'a1 -> 'a2 list -> 'a1 **)
+
+let rec fold_right f a0 = function
+| [] -> a0
+| b :: t -> f b (fold_right f a0 t)
+
 (** val existsb : ('a1 -> bool) -> 'a1 list -> bool **)
 
 let rec existsb f = function
 | [] -> false
 | a :: l0 -> (||) (f a) (existsb f l0)
+
+(** val forallb : ('a1 -> bool) -> 'a1 list -> bool **)
+
+let rec forallb f = function
+| [] -> true
+| a :: l0 -> (&&) (f a) (forallb f l0)
+
+(** val combine : 'a1 list -> 'a2 list -> ('a1 * 'a2) list **)
+
+let rec combine l l' =
+  match l with
+  | [] -> []
+  | x :: tl0 ->
+    (match l' with
+     | [] -> []
+     | y :: tl' -> (x, y) :: (combine tl0 tl'))
 
 (** val seq : nat -> nat -> nat list **)
 
@@ -1626,3 +1666,338 @@ let rec smatch toks m o h =
              | None -> None)
      | TPad ds -> smatch r m (Z.add o (count_of ds)) h
      | _ -> smatch r m o h)
+
+type ttype =
+| TLeaf of leaf
+| TStruct of z * (ttype * z) list
+
+type frame = (ttype * z) list * z
+
+type stack = frame list
+
+(** val init_push : ttype -> stack -> stack res **)
+
+let rec init_push t st =
+  match t with
+  | TLeaf _ -> Ok st
+  | TStruct (_, fs) ->
+    (match fs with
+     | [] -> NullDeref
+     | p :: _ -> let (t1, _) = p in init_push t1 ((fs, Z0) :: st))
+
+(** val s_init : ttype -> stack res **)
+
+let s_init t =
+  init_push t ((((t, Z0) :: []), Z0) :: [])
+
+(** val push_sub : bool -> ttype -> z -> stack -> stack **)
+
+let rec push_sub deep t a st =
+  match t with
+  | TLeaf _ -> st
+  | TStruct (_, fs) ->
+    (match fs with
+     | [] -> st
+     | p :: _ ->
+       let (t1, o1) = p in
+       let st' = (fs, a) :: st in
+       if deep then push_sub deep t1 (Z.add a o1) st' else st')
+
+(** val next_in :
+    bool -> bool -> (ttype * z) list -> z -> z -> stack -> stack option **)
+
+let rec next_in deep grand fs po gpo below =
+  match fs with
+  | [] -> None
+  | p :: r ->
+    let (t, fo) = p in
+    (match t with
+     | TLeaf _ -> Some ((fs, po) :: below)
+     | TStruct (sz, sub0) ->
+       (match sub0 with
+        | [] -> next_in deep grand r po gpo below
+        | _ :: _ ->
+          Some
+            (push_sub deep (TStruct (sz, sub0))
+              (Z.add (if grand then gpo else po) fo) ((fs, po) :: below))))
+
+(** val s_advance : bool -> bool -> stack -> stack **)
+
+let rec s_advance deep grand = function
+| [] -> []
+| f :: below ->
+  let (fs, po) = f in
+  (match below with
+   | [] -> []
+   | f0 :: _ ->
+     let (_, gpo) = f0 in
+     (match next_in deep grand (tl fs) po gpo below with
+      | Some st' -> st'
+      | None -> s_advance deep grand below))
+
+(** val s_cur : stack -> (leaf * z) option **)
+
+let s_cur = function
+| [] -> None
+| f :: _ ->
+  let (l1, po) = f in
+  (match l1 with
+   | [] -> None
+   | p :: _ ->
+     let (t, fo) = p in
+     (match t with
+      | TLeaf l -> Some (l, (Z.add po fo))
+      | TStruct (sz, _) ->
+        Some ({ l_group = (Zpos (XI (XI (XO (XO (XI (XO XH))))))); l_size =
+          sz; l_arr = [] }, (Z.add po fo))))
+
+(** val walk_from : nat -> bool -> bool -> stack -> (leaf * z) list res **)
+
+let rec walk_from fuel deep grand st = match st with
+| [] -> Ok []
+| _ :: _ ->
+  (match fuel with
+   | O -> OutOfFuel
+   | S f ->
+     (match s_cur st with
+      | Some x ->
+        bind (walk_from f deep grand (s_advance deep grand st)) (fun l -> Ok
+          (x :: l))
+      | None -> NullDeref))
+
+(** val tnodes : ttype -> nat **)
+
+let rec tnodes = function
+| TLeaf _ -> S O
+| TStruct (_, fs) ->
+  S
+    (let rec go = function
+     | [] -> O
+     | p :: r -> let (t1, _) = p in add (tnodes t1) (go r)
+     in go fs)
+
+(** val walk : bool -> bool -> ttype -> (leaf * z) list res **)
+
+let walk deep grand t =
+  bind (s_init t) (walk_from (tnodes t) deep grand)
+
+(** val t_size : ttype -> z **)
+
+let t_size = function
+| TLeaf l -> l.l_size
+| TStruct (sz, _) -> sz
+
+(** val check_tree :
+    fixes -> bool -> bool -> z list -> ttype -> z -> unit res **)
+
+let check_tree fx deep grand s t itemsize =
+  bind (walk deep grand t) (fun l ->
+    check fx s { ti_fields = l; ti_size = (t_size t); ti_flags = Z0 } itemsize)
+
+(** val flatten : ttype -> z -> (leaf * z) list **)
+
+let rec flatten t a =
+  match t with
+  | TLeaf l -> (l, a) :: []
+  | TStruct (_, fs) ->
+    let rec go = function
+    | [] -> []
+    | p :: r -> let (t1, o1) = p in app (flatten t1 (Z.add a o1)) (go r)
+    in go fs
+
+(** val flat_ti : ttype -> tinfo **)
+
+let flat_ti t =
+  { ti_fields = (flatten t Z0); ti_size = (t_size t); ti_flags = Z0 }
+
+type cinfo =
+| CInfo of z * z * z * z list * z * (cinfo * z) list option
+
+(** val zlist_eqb : z list -> z list -> bool **)
+
+let rec zlist_eqb a b =
+  match a with
+  | [] -> (match b with
+           | [] -> true
+           | _ :: _ -> false)
+  | x :: a' ->
+    (match b with
+     | [] -> false
+     | y :: b' -> (&&) (Z.eqb x y) (zlist_eqb a' b'))
+
+(** val arr_prefix_eqb : z list -> z list -> bool **)
+
+let rec arr_prefix_eqb a b =
+  match a with
+  | [] -> true
+  | x :: a' -> (&&) (Z.eqb x (nth O b Z0)) (arr_prefix_eqb a' (tl b))
+
+(** val is_none : 'a1 option -> bool **)
+
+let is_none = function
+| Some _ -> false
+| None -> true
+
+(** val ticmp : bool -> cinfo -> cinfo -> bool **)
+
+let rec ticmp fixh a b =
+  let CInfo (sa, ga, ua, aa, fa, fsa) = a in
+  let CInfo (sb, gb, ub, ab, fb, fsb) = b in
+  let ndim_eq = Nat.eqb (length aa) (length ab) in
+  let base_eq =
+    (&&) ((&&) ((&&) (Z.eqb sa sb) (Z.eqb ga gb)) (Z.eqb ua ub)) ndim_eq
+  in
+  let is_h =
+    (||) (Z.eqb ga (Zpos (XO (XO (XO (XI (XO (XO XH))))))))
+      (Z.eqb gb (Zpos (XO (XO (XO (XI (XO (XO XH))))))))
+  in
+  let cont =
+    if negb (arr_prefix_eqb aa ab)
+    then false
+    else if Z.eqb ga (Zpos (XI (XI (XO (XO (XI (XO XH)))))))
+         then if negb (Z.eqb fa fb)
+              then false
+              else (match fsa with
+                    | Some la ->
+                      (match fsb with
+                       | Some lb ->
+                         let rec go la0 lb0 =
+                           match la0 with
+                           | [] ->
+                             (match lb0 with
+                              | [] -> true
+                              | _ :: _ -> false)
+                           | p :: ra ->
+                             let (ta, oa) = p in
+                             (match lb0 with
+                              | [] -> false
+                              | p0 :: rb ->
+                                let (tb, ob) = p0 in
+                                (&&) ((&&) (Z.eqb oa ob) (ticmp fixh ta tb))
+                                  (go ra rb))
+                         in go la lb
+                       | None -> false)
+                    | None -> (match fsb with
+                               | Some _ -> false
+                               | None -> true))
+         else true
+  in
+  if base_eq
+  then cont
+  else if fixh
+       then if (&&)
+                 ((&&) ((&&) ((&&) is_h (Z.eqb sa sb)) ndim_eq) (is_none fsa))
+                 (is_none fsb)
+            then cont
+            else false
+       else if is_h then Z.eqb sa sb else false
+
+type cleaf = (((z * z) * z) * z list) * z
+
+(** val cflat : cinfo -> z -> cleaf list **)
+
+let rec cflat a o =
+  let CInfo (s, g, u, arr, _, fs) = a in
+  (match fs with
+   | Some l ->
+     if Z.eqb g (Zpos (XI (XI (XO (XO (XI (XO XH)))))))
+     then let rec go = function
+          | [] -> []
+          | p :: r -> let (t, fo) = p in app (cflat t (Z.add o fo)) (go r)
+          in go l
+     else ((((g, s), u), arr), o) :: []
+   | None -> ((((g, s), u), arr), o) :: [])
+
+(** val cleaf_compat : cleaf -> cleaf -> bool **)
+
+let cleaf_compat x y =
+  let (p, ox) = x in
+  let (p0, dx) = p in
+  let (p1, ux) = p0 in
+  let (gx, sx) = p1 in
+  let (p2, oy) = y in
+  let (p3, dy) = p2 in
+  let (p4, uy) = p3 in
+  let (gy, sy) = p4 in
+  (&&) ((&&) ((&&) (Z.eqb sx sy) (zlist_eqb dx dy)) (Z.eqb ox oy))
+    ((||)
+      ((||) ((&&) (Z.eqb gx gy) (Z.eqb ux uy))
+        (Z.eqb gx (Zpos (XO (XO (XO (XI (XO (XO XH)))))))))
+      (Z.eqb gy (Zpos (XO (XO (XO (XI (XO (XO XH)))))))))
+
+(** val forall2b : ('a1 -> 'a1 -> bool) -> 'a1 list -> 'a1 list -> bool **)
+
+let rec forall2b f l1 l2 =
+  match l1 with
+  | [] -> (match l2 with
+           | [] -> true
+           | _ :: _ -> false)
+  | x :: r1 ->
+    (match l2 with
+     | [] -> false
+     | y :: r2 -> (&&) (f x y) (forall2b f r1 r2))
+
+(** val cinfo_compat : cinfo -> cinfo -> bool **)
+
+let cinfo_compat a b =
+  forall2b cleaf_compat (cflat a Z0) (cflat b Z0)
+
+type axis =
+| AStrided
+| AContig
+| AFollow
+
+type cflag =
+| FNone
+| FC
+| FF
+
+(** val check_stride : z -> axis -> z -> z -> bool **)
+
+let check_stride isz ax sh st =
+  if Z.leb sh (Zpos XH)
+  then true
+  else (match ax with
+        | AStrided -> true
+        | AContig -> Z.eqb st isz
+        | AFollow -> Z.leb isz (Z.abs st))
+
+(** val vc_loop : z -> z -> (z * z) list -> bool **)
+
+let rec vc_loop isz stride = function
+| [] -> true
+| p :: r ->
+  let (sh, st) = p in
+  if (&&) (negb (Z.eqb (Z.mul stride isz) st)) (Z.ltb (Zpos XH) sh)
+  then false
+  else vc_loop isz (Z.mul stride sh) r
+
+(** val verify_contig : cflag -> z -> z list -> z list -> bool **)
+
+let verify_contig fl isz shape strides =
+  match fl with
+  | FNone -> true
+  | FC -> vc_loop isz (Zpos XH) (rev (combine shape strides))
+  | FF -> vc_loop isz (Zpos XH) (combine shape strides)
+
+(** val check_axes : z -> axis list -> z list -> z list -> bool **)
+
+let check_axes isz axes shape strides =
+  forallb (fun t -> check_stride isz (fst t) (fst (snd t)) (snd (snd t)))
+    (combine axes (combine shape strides))
+
+(** val prodz : z list -> z **)
+
+let prodz l =
+  fold_right Z.mul (Zpos XH) l
+
+(** val validate_axes :
+    axis list -> cflag -> z -> z list -> z list -> bool **)
+
+let validate_axes axes fl isz shape strides =
+  if negb (Nat.eqb (length shape) (length axes))
+  then false
+  else if Z.leb (Z.mul (prodz shape) isz) Z0
+       then true
+       else (&&) (check_axes isz axes shape strides)
+              (verify_contig fl isz shape strides)
